@@ -13,7 +13,7 @@ from vsym import triggers
 from vsym.pathex import And, Eq, Or
 from vsym.runner import Ob
 
-ORDER = ["dup1.py", "dup2.py", "strg1.py", "strg2.py", "nest.py", "magic.ts", "printy.js", "unwrap.rs", "square.ts", "cube.rs"] + \
+ORDER = ["dup1.py", "dup2.py", "strg1.py", "strg2.py", "a_tokenizer.py", "b_scanner.py", "nest.py", "magic.ts", "printy.js", "unwrap.rs", "square.ts", "cube.rs"] + \
     ["extra%02d.py" % i for i in range(26)]
 _P = {}
 
@@ -26,6 +26,9 @@ def _proj():
         # several findings that are identical in every field (same literal twice on one line, column 0)
         (Path(d) / "src" / "square.ts").write_text("function area(): number {\n  const a = 37 * 37;\n  return a;\n}\n")
         (Path(d) / "src" / "cube.rs").write_text("fn volume() -> i64 {\n    let v = 41 * 41 * 41;\n    v\n}\n")
+        # a pair whose findings depend on state an analyzer might carry from file to file (a worker starts clean)
+        (Path(d) / "src" / "a_tokenizer.py").write_text("import re as rx\n\n\nWORD = rx.compile('a+')\n\n\ndef words(text):\n    return WORD.findall(text)\n")
+        (Path(d) / "src" / "b_scanner.py").write_text("import regex as rx\n\n\ndef scan(items):\n    out = []\n    for it in items:\n        if rx.search('a+', it):\n            out.append(it)\n    return out\n")
         for i in range(26):   # cheap per-file findings, every file different
             (Path(d) / "src" / ("extra%02d.py" % i)).write_text(
                 "def price%d(q):\n    print(q)\n    return q * %d\n" % (i, 7001 + i))
@@ -155,6 +158,79 @@ def h_cli_routing(ctx):
     _cmp(ctx, seq, par)
 
 
+CONFIGS = {
+    # name -> (project .thailint.yaml, explicit --config file or None)
+    "project-config": ("dry:\n  enabled: true\n", None),
+    "invalid-threshold-in-project-config": ("dry:\n  enabled: true\nnesting:\n  max_nesting_depth: 0\n", None),
+    "invalid-magic-limit-in-project-config": ("magic-numbers:\n  max_small_integer: -3\n", None),
+    "explicit-config-with-ignore-list": ("dry:\n  enabled: true\n", "ignore:\n  - 'src/extra0*.py'\n  - 'src/dup1.py'\ndry:\n  enabled: true\n"),
+    "explicit-config-invalid-threshold": ("dry:\n  enabled: true\n", "nesting:\n  max_nesting_depth: -1\n"),
+    "project-ignore-list": ("ignore:\n  - 'src/extra1*.py'\n  - 'src/strg2.py'\ndry:\n  enabled: true\n", None),
+}
+
+
+def h_cli_configs(ctx):
+    """The whole command (CliRunner), with and without --parallel, under configurations that make a run
+    fail or drop files: the exit code and the JSON report must be the same."""
+    import json
+    import src.orchestrator.core as core
+    import src.linter_config.ignore as ign
+    from click.testing import CliRunner
+    from src.cli_main import cli
+    cfg = ctx.pick("configuration", tuple(CONFIGS))
+    cmd = ctx.pick("command", ("nesting", "magic-numbers", "dry", "improper-logging", "stringly-typed"))
+    cpu = ctx.pick("cpu_count", (2, 16))
+    src = _proj()
+    d = Path(tempfile.mkdtemp(prefix="c07cfg-"))
+    saved = (core.ProcessPoolExecutor, core.as_completed, core.multiprocessing)
+    took = {"parallel": False}
+
+    def rev_completed(futs):
+        took["parallel"] = True
+        return iter(list(futs)[::-1])
+
+    class MP:
+        @staticmethod
+        def cpu_count():
+            return cpu
+    try:
+        shutil.copytree(src / "src", d / "src")
+        (d / ".git").mkdir()
+        project_cfg, explicit = CONFIGS[cfg]
+        (d / ".thailint.yaml").write_text(project_cfg)
+        args = [cmd, "--format", "json"]
+        if explicit is not None:
+            (d / "custom.yaml").write_text(explicit)
+            args += ["--config", str(d / "custom.yaml")]
+        ign.clear_ignore_parser_cache()
+        seq = CliRunner().invoke(cli, args + [str(d / "src")])
+        try:
+            core.ProcessPoolExecutor, core.as_completed, core.multiprocessing = InProcessExecutor, rev_completed, MP
+            ign.clear_ignore_parser_cache()
+            par = CliRunner().invoke(cli, args + ["--parallel", str(d / "src")])
+        finally:
+            core.ProcessPoolExecutor, core.as_completed, core.multiprocessing = saved
+    finally:
+        shutil.rmtree(d, True)
+        ign.clear_ignore_parser_cache()
+
+    def report(r):
+        try:
+            doc = json.loads(r.output[r.output.index("{"):])
+            return Counter((v["rule_id"], Path(v["file_path"]).name, v["line"], v["column"], v["message"].replace(str(d), "")) for v in doc["violations"])
+        except (ValueError, KeyError):
+            return None
+    ctx.note("parallel_path_taken", took["parallel"])
+    ctx.cover("parallel-path" if took["parallel"] else "sequential-fallback")
+    ctx.require("same-exit-code", seq.exit_code == par.exit_code, sequential=seq.exit_code, parallel=par.exit_code,
+                seq_out=seq.output[-160:], par_out=par.output[-160:])
+    rs, rp = report(seq), report(par)
+    if seq.exit_code in (0, 1):
+        ctx.require("parallel-equals-sequential", rs is not None and rs == rp,
+                    only_sequential=[list(k)[:3] for k in list((rs or Counter()) - (rp or Counter()))[:5]],
+                    only_parallel=[list(k)[:3] for k in list((rp or Counter()) - (rs or Counter()))[:5]])
+
+
 def h_real_pool(ctx):
     """The real ProcessPoolExecutor / as_completed (no stubs): a bridge run validating the in-process executor stub."""
     import src.orchestrator.core as core
@@ -209,6 +285,12 @@ def obligations(tier):
            bounds="cpu_count in [1,16] symbolic; target in {directory, files(1..5), dir+files}; recursive flag",
            timeout=600, workers=14, must_cover=("parallel-path", "sequential-fallback"),
            stubs=("InProcessExecutor", "reversed as_completed", "cpu_count symbolic")),
+        Ob(name="K1c-cli-configurations", engine="pathex", harness=h_cli_configs,
+           functions=["thailint <command> [--config F] [--parallel] (in-process CLI)", "load_config_file/_apply_repo_ignores_from_config",
+                      "Orchestrator.lint_directory_parallel/_execute_parallel_linting/_lint_file_worker/_extract_violations_from_future", "_safe_check_rule"],
+           bounds="forked: %d configurations (valid, documented-invalid thresholds, top-level ignore lists in the project file and in an explicit --config file) x 5 commands x cpu_count in {2, 16}" % len(CONFIGS),
+           timeout=600, workers=14, must_cover=("parallel-path",),
+           stubs=("InProcessExecutor", "reversed as_completed", "cpu_count stub")),
         Ob(name="Br-real-process-pool", engine="pathex", harness=h_real_pool,
            functions=["Orchestrator.lint_files_parallel with the real concurrent.futures.ProcessPoolExecutor / as_completed"],
            bounds="forked (validation bridge, nothing symbolic): 4 / 12 / 36 files x max_workers in {None, 2, 6}; real worker processes, real completion order",
